@@ -36,7 +36,19 @@ ItemEnds(it, val, p) ==
 ReEnds(items, val, S) ==
   IF items = <<>> THEN S
   ELSE ReEnds(Tail(items), val, UNION { ItemEnds(Head(items), val, p) : p \in S })
-ReMatch(items, val) == Len(val) \in ReEnds(items, val, {0})
+\* a leading zero-width assertion is carried as a pseudo item with hi = 0 and lo = its kind: 1 look-behind for one of
+\* `set`, 2 word boundary \b, 3 \B, 4 ^.  A terminal is matched against ITS OWN text only, so the assertion sees
+\* nothing to its left: a look-behind can never hold, \b needs a word character first, \B must not have one, ^ holds.
+IsWordCp(c) == c \in 48..57 \/ c \in 65..90 \/ c \in 97..122 \/ c = 95 \/ c \in {170, 181, 186} \/ (c >= 192 /\ c <= 591 /\ c \notin {215, 247})
+IsAssertion(it) == it.hi = 0 /\ it.lo > 0
+AssertionHolds(it, val) ==
+  CASE it.lo = 1 -> FALSE
+    [] it.lo = 2 -> val # <<>> /\ IsWordCp(val[1])
+    [] it.lo = 3 -> val = <<>> \/ ~IsWordCp(val[1])
+    [] OTHER -> TRUE
+ReMatch(items, val) ==
+  IF items # <<>> /\ IsAssertion(items[1]) THEN AssertionHolds(items[1], val) /\ Len(val) \in ReEnds(Tail(items), val, {0})
+  ELSE Len(val) \in ReEnds(items, val, {0})
 
 -----------------------------------------------------------------------------
 (* helper symbols must never show up in a tree handed to a caller *)
